@@ -46,12 +46,23 @@ def inst(n, pre):
 def spec(tier, seed):
     insts = [Instance("c07_twin", "parallel", "dist_twin()", unwind=10, features=True, target="bin", mem_gb=4, timeout_s=600,
                       expect_fail=True, sub="vacuity twin", params={})]
+    # inductive step from an arbitrary valid union-find state (covers call histories of any length over N names)
+    for n in ((5,) if tier == "quick" else (4, 5, 6, 7)):
+        insts.append(Instance("c07_state_build_n%d" % n, "parallel", "dist_state_build::<%d>()" % n, unwind=max(10, n + 3), features=True, target="bin", mem_gb=8, timeout_s=1200,
+                              sub="C07 build() from an arbitrary valid state", must_cover=["parent chain of depth 3"],
+                              params=dict(names=n, symbolic="parent array under cc[i] <= i; thread_count in [1,16]")))
+    for n, regs in (((5, (3, 5)),) if tier == "quick" else ((4, (2, 3, 4)), (5, (3, 4, 5)), (6, (4, 5, 6)))):
+        for reg in regs:
+            insts.append(Instance("c07_state_add_n%d_r%d" % (n, reg), "parallel", "dist_state_add::<%d>(%d)" % (n, reg), unwind=max(10, n + 3), features=True, target="bin", mem_gb=8,
+                                  timeout_s=1200, sub="C07 add() from an arbitrary valid state keeps the invariant and merges exactly two components",
+                                  must_cover=["two different components merged"],
+                                  params=dict(names=n, registered=reg, symbolic="parent array under cc[i] <= i; the call (a, None|Some(b)), new names in order of appearance")))
     p32 = prefixes(3, 2)
     if tier == "quick":
         # always include the historically failing shape (A,B),(C,B) and its mirror
         base = [[(0, 1), (2, 1)], [(0, 1), (1, 2)], [(0, 1), (2, 0)], [(0, None), (1, 0)]]
         chosen = base + [p for p in rotate(p32, seed, 8) if p not in base]
-        for p in chosen[:12]:
+        for p in chosen[:6]:
             insts.append(inst(3, p))
     else:
         for p in prefixes(3, 1) + p32 + prefixes(3, 3):
